@@ -29,7 +29,8 @@ EVIDENCE = os.path.join(VERIF, "evidence")
 ASAN_BATCH = ("exitcode=77:detect_leaks=0:malloc_context_size=3:allocator_may_return_null=1:"
               "quarantine_size_mb=4:thread_local_quarantine_size_kb=64:allocator_release_to_os_interval_ms=-1")
 ASAN_REPLAY = "exitcode=77:detect_leaks=0:malloc_context_size=20:allocator_may_return_null=1:symbolize=1"
-TSAN_OPTS = "halt_on_error=0:exitcode=0:report_signal_unsafe=0:history_size=4:second_deadlock_stack=1"
+TSAN_OPTS = ("halt_on_error=0:exitcode=0:report_signal_unsafe=0:history_size=4:second_deadlock_stack=1:"
+             "suppress_equal_stacks=0:suppress_equal_addresses=0")
 
 
 def harness_env(replay=False):
